@@ -1,10 +1,417 @@
 import U3.Model.Route
+import U3.Lemmas.Route
+/-!
+# C15 — what goes on the wire is exactly what the URL says
+
+Theorems about `U3.Route.route` (the model of `PoolManager.urlopen` / `ProxyManager.urlopen` for one
+body-less GET, composed from `U3.Url`, `U3.PoolKey`, `U3.Wire`) — mostly through a **fresh** manager
+built with arbitrary pool keywords `extra` (`routeWith idna proxy extra u`; `routeFresh` is the case
+`extra = []`), for **every** `Url` record `u`, in particular every record `parse_url` can return.
+`idna` is the `idna.encode` oracle.  The theorems have the form "whenever the request is sent
+(`= .ok r`), what was observed (`r`) is …"; that requests are sent at all is shown by the non-vacuity
+examples.  The known findings are pinned by `…_witness` theorems (evaluation of the model on the URL
+text), and the headline statements they falsify are proved under the hypothesis that excludes them.
+
+Vocabulary (`U3.Lemmas.Route`): `effPort u` the port after `if not port:` defaulting, `schemeDefault s`
+80/443, `unbracket` the pool's `host[1:-1]`, `dialName` `create_connection`'s `strip("[]")`,
+`hostText` the host part of `http.client`'s automatic `Host`, `isForwarding proxy scheme` "the
+absolute URL is sent to the proxy, no tunnel".
+-/
 namespace U3.Props
 open U3 U3.Route
+
+/-- one GET of the URL text through a fresh manager (ASCII hosts: every IDNA query fails) -/
+def send1 (proxy : Option ProxyCfg) (url : String) : Except Exc Route :=
+  (routeUrl (fun _ => none) (Mgr.init proxy []) (lit url)).2
+
+/-- two GETs through one manager; the second is the redirect follow-up of the first: it carries the
+first hop's `kw["headers"]` -/
+def hop2 (proxy : Option ProxyCfg) (url1 url2 : String) : Except Exc Route :=
+  match routeUrl (fun _ => none) (Mgr.init proxy []) (lit url1) with
+  | (m', .ok r1) => (routeUrl (fun _ => none) m' (lit url2) r1.kwHeaders).2
+  | (_, .error e) => .error e
+
+/-- `ProxyManager("http://proxy.example:3128")` -/
+def pxHttp : ProxyCfg := ⟨http, some (lit "proxy.example"), 3128, false⟩
+/-- `ProxyManager("https://proxy.example", use_forwarding_for_https=True)` -/
+def pxHttpsFwd : ProxyCfg := ⟨https, some (lit "proxy.example"), 443, true⟩
+
+example : mkProxy (fun _ => none) (lit "http://proxy.example:3128") false = .ok pxHttp := by decide +kernel
+example : mkProxy (fun _ => none) (lit "https://proxy.example") true = .ok pxHttpsFwd := by decide +kernel
 
 /-- `port_by_scheme` gives http → 80, https → 443 (semantic fact about the generated table) -/
 theorem C15_port_table :
     List.lookup http Gen.portByScheme = some 80 ∧ List.lookup https Gen.portByScheme = some 443 := by
   decide
+
+/-! ## direct routes (no proxy) -/
+
+/-
+Full statement (property text): the TCP connection is opened to the URL's host (without brackets) and
+port (80/443 when absent).  FALSE for an explicit port 0 (known finding `port-zero-treated-as-absent`,
+witness below); and the host clause holds for the host *as the pool re-normalises it* (`h'`), which is
+the URL's host itself unless the zone id starts with `25` (known finding
+`zone-25-prefix-stripped-twice`, `C15_zone25_witness`; see `C15_host_stable_partial` for `h' = hst`).
+
+Proved: for every http/https `Url` with `port ≠ some 0` that is sent directly, the port dialled is the
+URL's port or the scheme default, and the name dialled is `h'` with one pair of enclosing brackets
+removed (`unbracket`; `dialName` is `create_connection`'s own `strip("[]")` of a name that still starts
+with `[`, the identity otherwise).
+-/
+theorem C15_connect_target_partial (idna : Str → Option Str) (extra : PoolKey.Ctx) (u : Url.Url) (r : Route)
+    (s hst : Str) (hs : u.scheme = some s) (hsch : s = http ∨ s = https) (hh : u.host = some hst)
+    (hp0 : u.port ≠ some 0)
+    (h : routeWith idna none extra u = .ok r) :
+    r.dialPort = u.port.getD (schemeDefault s) ∧
+    ∃ h', Url.normalizeHost idna (some hst) (some s) = .ok (some h') ∧
+      r.dialHost = dialName (unbracket h') ∧
+      (h'.head? ≠ some 91 → r.dialHost = h') ∧
+      (∀ a, h' = 91 :: a ++ [93] → a.head? ≠ some 91 → r.dialHost = a) := by
+  obtain ⟨h', tr, hn, -, -, hdh, hdp, -⟩ := route_direct_scheme hs hsch hh h
+  constructor
+  · rw [hdp]
+    unfold effPort dfltPort
+    have hso : schemeOrO u.scheme = s := by
+      rw [hs]; rcases hsch with rfl | rfl <;> decide
+    rw [hso]
+    cases hp : u.port with
+    | none => simp only [Option.getD_none]; rcases hsch with rfl | rfl <;> decide
+    | some p =>
+      have : p ≠ 0 := by intro e; subst e; exact hp0 hp
+      simp [this]
+  · refine ⟨h', hn, hdh, ?_, ?_⟩
+    · intro hb
+      rw [hdh, unbracket_of_head hb]
+      simp [dialName, hb]
+    · intro a ha hb
+      rw [hdh, ha, unbracket_bracketed]
+      simp [dialName, hb]
+
+-- non-vacuity: "https://User@Example.COM:8443/a?b#c" goes to ("example.com", 8443);
+-- "http://[FE80::1%25eth0]/" goes to ("fe80::1%eth0", 80)
+example : (send1 none "https://User@Example.COM:8443/a?b#c").toOption.map (fun r => (r.dialHost, r.dialPort)) =
+    some (lit "example.com", 8443) := by decide +kernel
+example : (send1 none "http://[FE80::1%25eth0]/").toOption.map (fun r => (r.dialHost, r.dialPort)) =
+    some (lit "fe80::1%eth0", 80) := by decide +kernel
+example : (Url.parseUrl (lit "https://User@Example.COM:8443/a?b#c")).toOption.map
+    (fun u => (u.scheme, u.host, u.port)) = some (some https, some (lit "example.com"), some 8443) := by
+  decide +kernel
+
+/-- known finding `port-zero-treated-as-absent`: "http://h:0/" parses with port 0, yet the connection
+goes to port 80 and the `Host` header names no port -/
+theorem C15_port_zero_witness :
+    (Url.parseUrl (lit "http://h:0/")).toOption.map (·.port) = some (some 0) ∧
+    (send1 none "http://h:0/").toOption.map (fun r => (r.dialHost, r.dialPort, r.hostHeader)) =
+      some (lit "h", 80, [lit "h"]) := by
+  decide +kernel
+
+/-- known finding `zone-25-prefix-stripped-twice`: "http://[::1%2525a]/" has zone id "25a" (host
+"[::1%25a]"); the pool normalises the host a second time and dials "::1%a" -/
+theorem C15_zone25_witness :
+    (Url.parseUrl (lit "http://[::1%2525a]/")).toOption.map (·.host) = some (some (lit "[::1%25a]")) ∧
+    (send1 none "http://[::1%2525a]/").toOption.map (·.dialHost) = some (lit "::1%a") := by
+  decide +kernel
+
+/-- **Host header (direct).**  Exactly one `Host` line; it is computed from the same pool host `D`
+(the re-normalised URL host without its brackets) and the same port as the connect target: the socket
+goes to `dialName D`, `r.dialPort`; `Host` is `D` without trailing dots — for a name containing `:`
+(IPv6) in one pair of brackets and cut at the zone delimiter `%` — followed by `:port` exactly when
+the port differs from the scheme default. -/
+theorem C15_host_header (idna : Str → Option Str) (extra : PoolKey.Ctx) (u : Url.Url) (r : Route)
+    (s hst : Str) (hs : u.scheme = some s) (hsch : s = http ∨ s = https) (hh : u.host = some hst)
+    (h : routeWith idna none extra u = .ok r) :
+    ∃ h' D, Url.normalizeHost idna (some hst) (some s) = .ok (some h') ∧ D = unbracket h' ∧
+      r.dialHost = dialName D ∧
+      r.hostHeader = [hostText (rstripDot D) ++
+        (if r.dialPort = schemeDefault s then [] else 58 :: Wire.toDec r.dialPort)] ∧
+      (58 ∉ D → hostText (rstripDot D) = rstripDot D) ∧
+      (58 ∈ D → hostText (rstripDot D) = 91 :: (rstripDot D).takeWhile (· != 37) ++ [93]) := by
+  obtain ⟨h', tr, hn, -, -, hdh, hdp, -, -, -, hhh, -, -⟩ := route_direct_scheme hs hsch hh h
+  refine ⟨h', unbracket h', hn, rfl, hdh, ?_, ?_, ?_⟩
+  · rw [hhh, hdp]
+    unfold hostHdrValue schemeDefault
+    simp
+  · intro h58
+    rw [hostText_eq, contains58_rstripDot]
+    simp [h58]
+  · intro h58
+    rw [hostText_eq, contains58_rstripDot]
+    simp [h58]
+
+-- non-vacuity: trailing dot dropped, default port elided / odd port kept, IPv6 bracketed without zone
+example : (send1 none "https://Example.COM.:443/").toOption.map (fun r => (r.dialHost, r.hostHeader)) =
+    some (lit "example.com.", [lit "example.com"]) := by decide +kernel
+example : (send1 none "http://[FE80::1%25eth0]:8080/").toOption.map (fun r => (r.dialHost, r.dialPort, r.hostHeader)) =
+    some (lit "fe80::1%eth0", 8080, [lit "[fe80::1]:8080"]) := by decide +kernel
+
+/-
+Full statement (property text): the TLS server name is the host without brackets, zone id or trailing
+dot.  FALSE when the zone id of an IPv6 literal contains a percent-escape (known findings
+`sni:direct:…` / `sni:tunnel:zone-with-escape-cut-at-last-percent`, witness below): `rfind("%")` cuts
+at the LAST `%`.
+
+Proved: a plain-http request makes no handshake; an https request makes exactly one, and when the
+pool host `D` has at most one `%` its server name is: for an IP literal — `D` without trailing dots,
+without brackets, cut at the `%` (so: no zone id) —, for any other name `D` without trailing dots.
+-/
+theorem C15_sni_partial (idna : Str → Option Str) (extra : PoolKey.Ctx) (u : Url.Url) (r : Route)
+    (s hst : Str) (hs : u.scheme = some s) (hsch : s = http ∨ s = https) (hh : u.host = some hst)
+    (h : routeWith idna none extra u = .ok r) :
+    ∃ h' D, Url.normalizeHost idna (some hst) (some s) = .ok (some h') ∧ D = unbracket h' ∧
+      (s = http → r.tls = []) ∧
+      (s = https → D.count 37 ≤ 1 →
+        ∃ name, r.tls = [name] ∧
+          name = (if isIpAddress ((stripBr (rstripDot D)).takeWhile (· != 37))
+                  then (stripBr (rstripDot D)).takeWhile (· != 37) else rstripDot D) ∧
+          (isIpAddress ((stripBr (rstripDot D)).takeWhile (· != 37)) = true → 37 ∉ name)) := by
+  obtain ⟨h', tr, hn, -, -, -, -, htls, -⟩ := route_direct_scheme hs hsch hh h
+  refine ⟨h', unbracket h', hn, rfl, ?_, ?_⟩
+  · intro e; subst e
+    have : http ≠ https := by decide
+    rw [htls, if_neg this]
+  · intro e h1; subst e
+    refine ⟨_, by rw [htls]; simp, sniNorm_single (Nat.le_trans (count_rstripDot_le 37 _) h1), ?_⟩
+    intro hip
+    rw [sniNorm_single (Nat.le_trans (count_rstripDot_le 37 _) h1), if_pos hip]
+    intro hm
+    have := Url.mem_takeWhile_p hm
+    simp at this
+
+-- non-vacuity: zone and trailing dot are gone from the server name
+example : (send1 none "https://[FE80::1%25eth0]/").toOption.map (·.tls) = some [lit "fe80::1"] := by decide +kernel
+example : (send1 none "https://Example.COM./").toOption.map (·.tls) = some [lit "example.com"] := by decide +kernel
+example : (lit "fe80::1%eth0").count 37 ≤ 1 := by decide
+
+/-- known findings `sni:direct:zone-with-escape-cut-at-last-percent` and `sni:tunnel:…`:
+"https://[fe80::1%25a%2fb]/" — zone id "a%2Fb" — handshakes with server name "fe80::1%a" (directly and
+inside a CONNECT tunnel) -/
+theorem C15_sni_zone_escape_witness :
+    (send1 none "https://[fe80::1%25a%2fb]/").toOption.map (·.tls) = some [lit "fe80::1%a"] ∧
+    (send1 (some pxHttp) "https://[fe80::1%25a%2fb]/").toOption.map (·.tls) = some [lit "fe80::1%a"] := by
+  decide +kernel
+
+/-! ## the request target -/
+
+/-- **Neither userinfo nor fragment reaches the wire** (direct and tunnelled routes, any manager
+state, any carried headers): the whole observation — pool, address, TLS names, CONNECT, target, `Host`,
+request bytes — and the manager's next state are unchanged when userinfo and fragment of the URL are
+replaced by anything else. -/
+theorem C15_target_no_fragment_no_userinfo (idna : Str → Option Str) (m : Mgr) (u : Url.Url)
+    (carried : List (Str × Str)) (a f : Option Str)
+    (hnf : isForwarding m.proxy u.scheme = false) :
+    route idna m { u with auth := a, fragment := f } carried = route idna m u carried :=
+  route_congr idna m _ u carried rfl rfl rfl rfl hnf
+
+-- non-vacuity: without a proxy nothing is forwarded; an http proxy tunnels https
+example (s : Option Str) : isForwarding none s = false := rfl
+example : isForwarding (some pxHttp) (some https) = false := by decide
+
+/-- **The request target (direct and tunnelled)** is `_encode_target(request_uri)`: it starts with `/`;
+and when path and query are in normal form (every parsed http/https URL: `C14_normal_form`) it *is*
+`request_uri` = the path (`/` when empty or absent) followed by `?query` when there is a query. -/
+theorem C15_target_origin_form (idna : Str → Option Str) (extra : PoolKey.Ctx) (proxy : Option ProxyCfg)
+    (u : Url.Url) (r : Route) (hst : Str) (hh : u.host = some hst)
+    (hmode : proxy = none ∨
+      ∃ p, proxy = some p ∧ u.scheme = some https ∧ isForwarding (some p) (some https) = false)
+    (h : routeWith idna proxy extra u = .ok r) :
+    Url.encodeTarget u.requestUri = .ok r.target ∧ r.target.head? = some 47 ∧
+    ((∀ x, u.path = some x → Url.NormalForm Gen.pathChars x) →
+     (∀ x, u.query = some x → Url.NormalForm Gen.queryChars x) →
+      r.target = u.requestUri ∧ u.requestUri = pathOrSlash u ++ qSuffix u.query) := by
+  have key : ∃ tr, u.requestUri.head? = some 47 ∧ Url.encodeTarget u.requestUri = .ok (47 :: tr) ∧
+      r.target = 47 :: tr := by
+    rcases hmode with rfl | ⟨p, rfl, hs, hnf⟩
+    · obtain ⟨_, _, tr, _, _, _, h47, het, _, _, _, _, _, htg, _⟩ := route_direct_ok h
+      exact ⟨tr, h47, het, htg⟩
+    · obtain ⟨_, tr, _, _, _, het, _, _, _, _, _, htg, _⟩ := route_tunnel_ok hs hh hnf h
+      obtain ⟨t', ht', _⟩ := encodeTarget_ok_eq het
+      exact ⟨tr, by rw [ht']; rfl, het, htg⟩
+  obtain ⟨tr, h47, het, htg⟩ := key
+  refine ⟨by rw [htg]; exact het, by rw [htg]; rfl, ?_⟩
+  intro hp hq
+  have := encodeTarget_normal h47 hp hq
+  rw [het] at this
+  simp only [Except.ok.injEq] at this
+  exact ⟨by rw [htg]; exact this, requestUri_eq u⟩
+
+-- non-vacuity: "/" for the empty path, dot segments removed, query kept, fragment and userinfo absent
+example : (send1 none "http://uSr:pw@example.com?q=1#frag").toOption.map (·.target) = some (lit "/?q=1") := by
+  decide +kernel
+example : (send1 (some pxHttp) "https://uSr@example.com/a/./b/../c?x y#frag").toOption.map (·.target) =
+    some (lit "/a/c?x%20y") := by decide +kernel
+
+/-
+Full statement (property text) for forwarding routes: the target names scheme, host, port, path and
+query — never the fragment or the userinfo.  FALSE: `ProxyManager.urlopen` sends `parse_url(url).url`
+(known findings `target:forward:userinfo-kept`, `target:forward:fragment-kept`,
+`target:forward:fragment-kept+userinfo-kept`; witnesses below).
+
+Proved: the absolute-form target is the string form of the URL; for a URL without userinfo and
+fragment that is `scheme://host[:port]path[?query]`.
+-/
+theorem C15_target_forward_partial (idna : Str → Option Str) (extra : PoolKey.Ctx) (p : ProxyCfg)
+    (u : Url.Url) (r : Route) (s hst : Str) (hs : u.scheme = some s) (hsch : s = http ∨ s = https)
+    (hh : u.host = some hst)
+    (hf : isForwarding (some p) u.scheme = true)
+    (h : routeWith idna (some p) extra u = .ok r) :
+    r.connect = none ∧ r.target = u.render ∧
+    (u.auth = none → u.fragment = none →
+      r.target = s ++ [58, 47, 47] ++ hst ++ (match u.port with | some n => 58 :: Url.natToDec n | none => []) ++
+        (match u.path with | some x => x | none => []) ++ qSuffix u.query) := by
+  obtain ⟨n, pl, -, -, -, -, -, hcon, htg, -⟩ :=
+    route_forward_ok (by rcases hsch with rfl | rfl <;> simp [hs]) hf h
+  refine ⟨hcon, htg, ?_⟩
+  intro ha hfr
+  rw [htg]
+  cases hpo : u.port <;> cases hpa : u.path <;> cases hq : u.query <;>
+    simp [Url.Url.render, qSuffix, hs, hh, ha, hfr, hpo, hpa, hq]
+
+-- non-vacuity: an http URL through an http proxy is forwarded
+example : isForwarding (some pxHttp) (some http) = true := by decide
+example : (send1 (some pxHttp) "http://Example.com:8080/a?b").toOption.map (·.target) =
+    some (lit "http://example.com:8080/a?b") := by decide +kernel
+
+/-- known findings `target:forward:userinfo-kept`, `target:forward:fragment-kept` (and both at once):
+the absolute-form target keeps userinfo and fragment — for an http URL through an http proxy and for
+an https URL through a forwarding https proxy -/
+theorem C15_target_forward_userinfo_fragment_witness :
+    (send1 (some pxHttp) "http://uSr:pw@example.com/p").toOption.map (·.target) =
+      some (lit "http://uSr:pw@example.com/p") ∧
+    (send1 (some pxHttp) "http://example.com/p#frag").toOption.map (·.target) =
+      some (lit "http://example.com/p#frag") ∧
+    (send1 (some pxHttpsFwd) "https://uSr@example.com/p#frag").toOption.map (·.target) =
+      some (lit "https://uSr@example.com/p#frag") := by
+  decide +kernel
+
+/-! ## equivalent URLs -/
+
+/-
+Full statement (property text): URLs that differ only in scheme/host letter case or an explicit
+default port reach the same pool and produce byte-identical requests.  FALSE through a forwarding
+proxy for the explicit default port (known finding `equiv:forward:bytes:explicit-default-port`,
+witness below).
+
+Proved (direct and tunnelled routes, every manager state, every carried headers): writing the scheme
+default explicitly changes nothing — same pool id and pool key, same next manager state, same
+address, TLS names, CONNECT, target, `Host` and request bytes.  Scheme and host letter case never reach
+`route`: `parse_url` has lower-cased both (`C14_scheme_lower`, `C14_host_lower_partial`), and
+`C15_scheme_case_parse` below shows at the text level that the scheme's case does not influence the
+parse at all.
+-/
+theorem C15_case_default_port_same_pool_same_bytes (idna : Str → Option Str) (m : Mgr) (u : Url.Url)
+    (carried : List (Str × Str)) (s : Str) (hs : u.scheme = some s) (hsch : s = http ∨ s = https)
+    (hp : u.port = none)
+    (hnf : isForwarding m.proxy u.scheme = false) :
+    route idna m { u with port := some (schemeDefault s) } carried = route idna m u carried := by
+  refine route_congr idna m { u with port := some (schemeDefault s) } u carried rfl rfl ?_ rfl hnf
+  show PoolKey.portOr (portVal (some (schemeDefault s))) (schemeOrO u.scheme) =
+    PoolKey.portOr (portVal u.port) (schemeOrO u.scheme)
+  rw [hp, hs]
+  rcases hsch with rfl | rfl <;> decide
+
+-- non-vacuity: "https://example.com:443/p" and "https://example.com/p", directly and tunnelled
+example : (send1 none "https://example.com:443/p") = (send1 none "https://EXAMPLE.com/p") := by decide +kernel
+example : (send1 (some pxHttp) "https://example.com:443/p").toOption.map (·.request) =
+    (send1 (some pxHttp) "HTTPS://example.COM/p").toOption.map (·.request) := by decide +kernel
+example : ((send1 none "https://example.com:443/p").toOption.map (·.pool)).isSome = true := by decide +kernel
+
+/-- known finding `equiv:forward:bytes:explicit-default-port`: through a forwarding proxy
+"http://example.com:80/p" and "http://example.com/p" differ in the target and in the `Host` header -/
+theorem C15_forward_explicit_default_port_witness :
+    (send1 (some pxHttp) "http://example.com:80/p").toOption.map (fun r => (r.target, r.hostHeader)) =
+      some (lit "http://example.com:80/p", [lit "example.com:80"]) ∧
+    (send1 (some pxHttp) "http://example.com/p").toOption.map (fun r => (r.target, r.hostHeader)) =
+      some (lit "http://example.com/p", [lit "example.com"]) := by
+  decide +kernel
+
+/-! ## tunnelled routes (https URL through a proxy that does not forward https) -/
+
+/-- **Tunnel: address, CONNECT, SNI.**  The socket goes to the proxy; the CONNECT request names the
+(re-normalised, lower-cased) URL host — an IPv6 literal in its brackets — and the defaulted port; the
+last TLS handshake uses the tunnel host without trailing dots as server name (normalised as in
+`C15_sni_partial`), preceded by one handshake with the proxy iff the proxy is https. -/
+theorem C15_tunnel_connect (idna : Str → Option Str) (extra : PoolKey.Ctx) (p : ProxyCfg) (ph : Str)
+    (u : Url.Url) (r : Route) (hst : Str) (hs : u.scheme = some https) (hh : u.host = some hst)
+    (hph : p.host = some ph)
+    (hnf : isForwarding (some p) (some https) = false)
+    (h : routeWith idna (some p) extra u = .ok r) :
+    ∃ h', Url.normalizeHost idna (some hst) (some https) = .ok (some h') ∧
+      r.dialHost = dialName ph ∧ r.dialPort = p.port ∧
+      r.connect = some (connectBytes (lower h') (effPort u)) ∧
+      r.tls = (if p.scheme = https then [sniNorm (rstripDot ph)] else []) ++ [sniNorm (rstripDot (lower h'))] := by
+  obtain ⟨h', tr, pl, hn, rfl, -, -, hdh, hdp, htls, hcon, -⟩ := route_tunnel_ok hs hh hnf h
+  simp only [proxyAddr, hph] at hdh hdp htls
+  exact ⟨h', hn, hdh, hdp, hcon, htls⟩
+
+-- non-vacuity
+example : (send1 (some pxHttp) "https://Example.COM:8443/").toOption.map
+    (fun r => (r.dialHost, r.dialPort, r.tls, r.connect)) =
+    some (lit "proxy.example", 3128, [lit "example.com"],
+      some (lit "CONNECT example.com:8443 HTTP/1.1\r\nHost: example.com:8443\r\n\r\n")) := by decide +kernel
+
+/-
+Full statement: inside the tunnel the `Host` header names the URL's host (an IPv6 literal in ONE pair of
+brackets) and port.  FALSE for IPv6 literals (known findings `host-header:tunnel:ipv6-double-bracket`,
+`host-header:tunnel:ipv6-zone-unbalanced-bracket`, witness below): the pool hands the *bracketed*
+`_tunnel_host` to `set_tunnel` and `http.client` brackets every host containing `:` again.
+
+Proved: for a tunnel host without `:` the `Host` header is the tunnel host (the lower-cased,
+re-normalised URL host) followed by `:port` exactly when the port is not 443.
+-/
+theorem C15_host_header_tunnel_partial (idna : Str → Option Str) (extra : PoolKey.Ctx) (p : ProxyCfg)
+    (u : Url.Url) (r : Route) (hst : Str) (hs : u.scheme = some https) (hh : u.host = some hst)
+    (hnf : isForwarding (some p) (some https) = false)
+    (h : routeWith idna (some p) extra u = .ok r) :
+    ∃ h', Url.normalizeHost idna (some hst) (some https) = .ok (some h') ∧
+      (58 ∉ lower h' →
+        r.hostHeader = [lower h' ++ (if effPort u = 443 then [] else 58 :: Wire.toDec (effPort u))]) := by
+  obtain ⟨h', tr, pl, hn, rfl, -, -, -, -, -, -, -, hhh, -⟩ := route_tunnel_ok hs hh hnf h
+  refine ⟨h', hn, ?_⟩
+  intro h58
+  rw [hhh, hostText_eq]
+  simp [h58]
+
+example : (send1 (some pxHttp) "https://Example.COM./p").toOption.map (·.hostHeader) = some [lit "example.com."] := by
+  decide +kernel
+
+/-- known findings `host-header:tunnel:ipv6-double-bracket` and
+`host-header:tunnel:ipv6-zone-unbalanced-bracket` -/
+theorem C15_tunnel_ipv6_host_witness :
+    (send1 (some pxHttp) "https://[::1]:8443/").toOption.map (·.hostHeader) = some [lit "[[::1]]:8443"] ∧
+    (send1 (some pxHttp) "https://[fe80::1%25eth0]/").toOption.map (·.hostHeader) = some [lit "[[fe80::1]"] := by
+  decide +kernel
+
+/-! ## forwarding routes: the `Host` header -/
+
+/-- **Host header (forwarding, fresh request).**  `_set_proxy_headers` supplies `Host: <netloc>`, where
+`netloc` is `host[:port]` of the URL with the port as written (an explicit default port stays, port 0
+goes: `Url.netloc`); this one caller header replaces `http.client`'s automatic one, and it is what
+`kw["headers"]` carries on to a redirect follow-up. -/
+theorem C15_host_header_forward (idna : Str → Option Str) (extra : PoolKey.Ctx) (p : ProxyCfg)
+    (u : Url.Url) (r : Route) (hsc : u.scheme = some http ∨ u.scheme = some https)
+    (hf : isForwarding (some p) u.scheme = true)
+    (h : routeWith idna (some p) extra u = .ok r) :
+    ∃ n, u.netloc = some n ∧ n ≠ [] ∧
+      (n ≠ Gen.skipHeader → r.hostHeader = [n]) ∧
+      r.kwHeaders = [acceptHdr, (lit "Host", n)] := by
+  obtain ⟨n, pl, hn, hne, -, -, -, -, -, hhh, -, hkw⟩ := route_forward_ok hsc hf h
+  refine ⟨n, hn, hne, ?_, hkw⟩
+  intro hsk
+  rw [hhh]
+  simp [hsk]
+
+example : (send1 (some pxHttp) "http://Example.com:8080/a").toOption.map (·.hostHeader) =
+    some [lit "example.com:8080"] := by decide +kernel
+
+/-- known findings `host-header:forward:redirect-stale-host` and
+`host-header:tunnel:redirect-stale-host`: the follow-up request of a redirect carries the first hop's
+computed `Host` (and `Accept`) as caller headers, which override the new URL's -/
+theorem C15_redirect_stale_host_witness :
+    (hop2 (some pxHttp) "http://a.example/" "http://b.example/next").toOption.map
+      (fun r => (r.target, r.hostHeader)) = some (lit "http://b.example/next", [lit "a.example"]) ∧
+    (hop2 (some pxHttp) "http://example.com/" "https://x1.y2/next").toOption.map
+      (fun r => (r.connect, r.target, r.hostHeader)) =
+      some (some (lit "CONNECT x1.y2:443 HTTP/1.1\r\nHost: x1.y2:443\r\n\r\n"), lit "/next", [lit "example.com"]) := by
+  decide +kernel
 
 end U3.Props
